@@ -7,7 +7,7 @@
 From Coq Require Import List NArith Bool String.
 From GoGit Require Import Base.Out Model.Gitignore Spec.Glob Spec.PathGlob Spec.GitIgnore
      Proofs.C49Total Proofs.C49Wild Proofs.C49Scope Proofs.C49Git Proofs.C49Trim Proofs.C49Names
-     Proofs.C49Path Proofs.C49Walk Proofs.C49GoGlob Proofs.C49Slash Proofs.C49Frag.
+     Proofs.C49Path Proofs.C49Walk Proofs.C49GoGlob Proofs.C49Slash Proofs.C49Frag Proofs.C49Anc.
 Import ListNotations.
 Local Open Scope N_scope.
 Local Open Scope string_scope.
@@ -210,7 +210,7 @@ Print Assumptions C49_names_eq_git_partial.
        empty, a comment, or  ["!"] body ["/"]  where body is not empty, does not
        begin with "!", and is either a slash-free glob of Spec/Glob (a name
        pattern, POSIX classes included) or a pattern with a leading / inner
-       slash (slash_body: no bracket; every segment a non-empty glob or "**";
+       slash (slash_body: every segment a non-empty glob of Spec/Glob or "**";
        no "**" inside a segment, at the end, or not followed by "/"; no escaped
        slash; plain segments first, then groups of "**"s each followed by exactly
        one plain segment: /a/b, a/*.c, **/x, a/**/b, /**/a/**/b ...); no blank but LF,
@@ -226,8 +226,8 @@ Print Assumptions C49_names_eq_git_partial.
    The third guard is needed (C49_reincluded_ancestor_refuted below, the known
    finding negated-ancestor): a negated pattern that matches a directory
    re-includes everything below it in go-git only.  What stays outside: the other
-   eight finding classes (each excluded by wide_case), brackets in patterns with
-   slashes, a trailing "/**", a "**" followed by two or more plain segments. *)
+   eight finding classes (each excluded by wide_case), a trailing "/**", a "**"
+   followed by two or more plain segments. *)
 Theorem C49_pattern_eq_git_partial : forall excl fs path isdir,
   wide_case excl fs = true -> path_ok path = true ->
   no_reincluded_ancestor excl fs path = true ->
@@ -241,6 +241,17 @@ Theorem C49_pattern_eq_git_positive : forall excl fs path isdir,
   ignored excl fs path isdir = git_ignored excl fs path isdir.
 Proof. exact positive_eq_git. Qed.
 Print Assumptions C49_pattern_eq_git_positive.
+
+(* inside the fragment go-git's verdict is EXACTLY git's algorithm with every
+   pattern also matching everything below what it matches (gpat_match_anc in
+   the place of gpat_match in last_matching_pattern / prep_exclude), for every
+   path and without the third guard: the ancestor matching of pattern.Match is
+   the only source of divergence there *)
+Theorem C49_pattern_eq_git_modulo_ancestor : forall excl fs path isdir,
+  wide_case excl fs = true -> path_ok path = true ->
+  ignored excl fs path isdir = git_anc_ignored excl fs path isdir.
+Proof. exact anc_eq_git. Qed.
+Print Assumptions C49_pattern_eq_git_modulo_ancestor.
 
 (* the third guard cannot be dropped: inside the fragment, with a re-included
    ancestor, the two differ (pattern "*" then "!foo", path foo/x) *)
